@@ -1036,14 +1036,17 @@ def _split_tuple_assigns(fnode, unknown):
             s = block[i]
             if (isinstance(s, ast.Assign) and len(s.targets) == 1 and isinstance(s.targets[0], (ast.Tuple, ast.List))
                     and isinstance(s.value, (ast.Tuple, ast.List)) and len(s.value.elts) == len(s.targets[0].elts)
-                    and all(isinstance(t, ast.Name) for t in s.targets[0].elts)
-                    and (any(t.id in unknown for t in s.targets[0].elts) or hasattr(s, "_inl"))):
-                tnames = [t.id for t in s.targets[0].elts]
+                    and all(isinstance(t, ast.Name) or (isinstance(t, ast.Attribute) and isinstance(t.value, ast.Name) and t.value.id == "self") for t in s.targets[0].elts)
+                    and (any(isinstance(t, ast.Name) and t.id in unknown for t in s.targets[0].elts) or hasattr(s, "_inl"))):
+                tnames = [t.id for t in s.targets[0].elts if isinstance(t, ast.Name)]
+                tattrs = [t.attr for t in s.targets[0].elts if isinstance(t, ast.Attribute)]
                 reads = set()
+                attr_reads = set()
                 for v in s.value.elts:
                     reads |= _names(v)
+                    attr_reads |= {x.attr for x in ast.walk(v) if isinstance(x, ast.Attribute)}
                 n_impure = sum(1 for v in s.value.elts if not _pure(v, allow_alloc=True))
-                if not (reads & set(tnames)) and n_impure <= 1:
+                if not (reads & set(tnames)) and not (attr_reads & set(tattrs)) and n_impure <= (0 if tattrs else 1):
                     new = []
                     for t, v in zip(s.targets[0].elts, s.value.elts):
                         a = ast.Assign(targets=[t], value=v, type_comment=None)
